@@ -113,6 +113,7 @@ type pingAnswer struct {
 type pingReq struct {
 	node *enode.Node
 	ch   chan pingAnswer
+	at   time.Time // virtual time at which the liveness check was started
 }
 
 type tabEnv struct {
@@ -153,7 +154,7 @@ func newTabEnv() *tabEnv {
 			if t.pingAuto {
 				return n.Seq(), nil
 			}
-			req := &pingReq{node: n, ch: make(chan pingAnswer)}
+			req := &pingReq{node: n, ch: make(chan pingAnswer), at: time.Now()}
 			t.mu.Lock()
 			t.pending[n.ID()] = req
 			t.mu.Unlock()
